@@ -152,7 +152,7 @@ class Binding:
 
 
 class Program:
-    def __init__(self, root: str = '/repo', overlay: Optional[Dict[str, str]] = None):
+    def __init__(self, root: str = '/repo', overlay: Optional[Dict[str, str]] = None, normalize: bool = True):
         self.root = root
         self.overlay = overlay or {}
         self.modules: Dict[str, Module] = {}
@@ -161,6 +161,10 @@ class Program:
         self.functions: Dict[str, FuncInfo] = {}
         self._load()
         self._index()
+        self.normalizer = None
+        if normalize:
+            from .normalize import normalize_program
+            self.normalizer = normalize_program(self)
 
     # ------------------------------------------------------------------ loading
     def read(self, relpath: str) -> str:
